@@ -151,6 +151,7 @@ fn opaque_array(imp: &str) -> bool {
         let body = &rest[k + 7..];
         let end = body.find('"').unwrap_or(body.len());
         let d = &body[..end];
+        if d.starts_with("Graph {") { rest = &body[end..]; continue; }      // a graph literal: modelled
         let inner = d.trim_start_matches('[').trim_end_matches(']');
         let ok = d.starts_with('[') && d.ends_with(']') && !inner.contains('[')
             && (inner.is_empty() || inner.split(", ").all(|x| !x.is_empty() && x.chars().all(|c| c.is_ascii_digit()))
@@ -326,7 +327,7 @@ fn gen_leaf(r: &mut Rng, g: &GenCfg, depth: u32, out: &mut Vec<T>) {
         6 | 7 => out.push(int(*r.pick(&["0", "1", "2", "3", "10"]))),
         8 => out.push(T::Float(r.pick(&["2.5", "0.25", "1.0", "3.75", "0.1", "2.50"]).to_string())),
         9 if g.bools => out.push(w(*r.pick(&["true", "false"]))),
-        10 if g.odd_words => out.push(w(*r.pick(&["android", "order", "nothing", "iffy", "xor1", "implies2", "mins", "format", "$x", "_u", "inx", "ast", "lets", "And", "NOT", "not1", "true2", "and3x", "e1", "e5", "xor2", "in1", "or0", "iff9", "E2", "forêt", "orée", "notée", "inès", "asín", "maxı", "trueé", "λ", "дa"]))),
+        10 if g.odd_words => out.push(w(*r.pick(&["android", "order", "nothing", "iffy", "xor1", "implies2", "mins", "format", "$x", "_u", "inx", "ast", "lets", "And", "NOT", "not1", "true2", "and3x", "e1", "e5", "\\x_1", "\\cap_a_2", "\\not_1", "\\T_x9", "xor2", "in1", "or0", "iff9", "E2", "forêt", "orée", "notée", "inès", "asín", "maxı", "trueé", "λ", "дa"]))),
         11 | 12 => {
             // implicit multiplication: (number | parenthesis)+ variable?
             let n = 1 + r.below(3);
